@@ -16,8 +16,11 @@
     History: before pypyr commit d9572b0 Step.set_step_input_context did context.update(in),
     so a container given under `in` WAS the cached definition's object and append /
     contextmerge / default / py / add changed the definition in place ([step_aliasing];
-    Example C12_why_the_repair_was_needed).  [step] is the repaired code: the injection is a
-    deep copy.  The invariant behind every theorem: no context key and no object of a run's
+    Example C12_why_the_repair_was_needed); likewise, before fd90231, a shortcut's parser_args
+    list was handed to the context parser itself, so pypyr.parser.list bound argList to the
+    list held by config.shortcuts.  [step] is the repaired code: every such transfer
+    ([InjectIn]) is a copy; the definition heap holds pipeline bodies, config.vars and the
+    shortcuts' parser_args alike.  The invariant behind every theorem: no context key and no object of a run's
     own heap ever points into the definition heap (AliasProofs.pinv with the empty taint set). *)
 From Coq Require Import List String ZArith.
 From PV Require Import Alias AliasProofs.
